@@ -104,5 +104,7 @@ pub fn spec_c04() -> PropSpec {
         tape_len: 400,
         make: || vec![Box::new(super::c06::Aux(Box::new(ValueOracle::new()))), Box::new(super::c06::Aux(Box::new(super::c03::Justify::new()))), Box::new(Untracked::new())],
         nt_rule: "",
+        engine: "seq",
+        runner: None,
     }
 }
